@@ -166,6 +166,10 @@ def build(cp, case):
     ys = rand_vec(rng, ny, -40.0, 40.0)
     if d3:
         zs = rand_vec(rng, nz, 0.0, 20.0)
+        # the solver returns z[levels] in the order the levels were requested (output_levels such as [6, 2, 4]):
+        # the height coordinate need not be ascending, and every slice must keep ITS height
+        if nz > 1 and case["seed"] % 2 == 1:
+            zs = zs[::-1].copy() if case["seed"] % 4 == 1 else np.roll(zs, 1)
         Z, Y, X = np.meshgrid(zs, ys, xs, indexing="ij")
         shape = (nz, ny, nx)
     else:
@@ -199,9 +203,17 @@ def build(cp, case):
         lst = []
         for t in range(ns):
             ident += 2
+            flx_block = rand_block(rng, shape, ident)
+            if case["seed"] % 3 == 2 and ident == 2:
+                # results need not share one dtype (a footprint kept in single precision next to double-precision
+                # fields): the first block handed to the writer is float32, every value of it exactly representable
+                with np.errstate(over="ignore", invalid="ignore"):
+                    f32 = flx_block.astype(np.float32)
+                f32[~np.isfinite(f32)] = np.float32(1.5)
+                flx_block = f32
             lst.append({
                 "grid": (X, Y, Z),
-                "flx": rand_block(rng, shape, ident),
+                "flx": flx_block,
                 "conc": rand_block(rng, shape, ident + 1),
                 "tower_name": name,
                 "tower_xy": (0.0, 0.0),
@@ -239,6 +251,8 @@ class Tokens:
 
     def block(self, arr):
         a = np.ascontiguousarray(arr)
+        if a.dtype == np.float32:
+            a = a.astype(np.float64)   # exact: blocks are identified by their values as doubles
         if a.dtype != np.float64:
             return -8
         b = a.tobytes()
@@ -535,7 +549,7 @@ def real_runs(ctx, cp):
         ("real-2d-ustar", {"nx": 6, "ny": 4, "xmax": 60.0, "ymax": 40.0, "nz": 4, "modes": [6, 4], "ref_lat": 50.0, "ref_lon": 8.0},
          {"ustar": [0.4, 0.5], "mol": [-100.0, 300.0], "wind_speed": [4.0, 6.0], "wind_dir": [250.0, 20.0]}, 3),
         ("real-3d-z0", {"nx": 4, "ny": 6, "xmax": 40.0, "ymax": 60.0, "nz": 4, "modes": [4, 6], "ref_lat": 50.0, "ref_lon": 8.0,
-                        "output_levels": [1, 2, 4]},
+                        "output_levels": [4, 1, 2]},
          {"z0": 0.05, "mol": [-80.0, 500.0, -300.0], "wind_speed": [3.0, 5.0, 4.5], "wind_dir": [90.0, 200.0, 315.0],
           "timestamps": ["2024-01-01T00:00", "2024-01-01T00:30", "2024-01-01T01:00"]}, 2),
     ]
